@@ -77,6 +77,7 @@ pub fn plan(prop: &str, tier: &str) -> Option<Plan> {
                 for (n, l, v) in seq_bounds(tier) {
                     jobs.push(job(prop, "seqx", f, tier, json!({"n": n, "max_edges": l, "vals": v})));
                 }
+                jobs.push(job(prop, "seqx", f, tier, json!({"long": if tier == "quick" { 24 } else { 48 }})));
                 if prop == "C03" {
                     let (n, l) = if tier == "quick" { (2, 3) } else { (3, 3) };
                     jobs.push(job(prop, "seqx", f, tier, json!({"n": n, "max_edges": l, "vals": 1, "provenance": true})));
@@ -171,6 +172,7 @@ pub fn plan(prop: &str, tier: &str) -> Option<Plan> {
                 for (n, l, sh) in &bounds {
                     jobs.extend(sharded(prop, "csweep", f, tier, json!({"n": n, "max_l": l}), *sh));
                 }
+                jobs.extend(sharded(prop, "csweep", f, tier, json!({"n": 0, "max_l": 0, "large": if tier == "quick" { 20 } else { 40 }}), 8));
             }
             Some(Plan {
                 jobs,
@@ -267,7 +269,7 @@ pub fn plan(prop: &str, tier: &str) -> Option<Plan> {
                     .flat_map(|f| {
                         let mut owned = params.clone();
                         owned["container_owned"] = json!(true);
-                        vec![job(prop, "cont", f, tier, params.clone()), job(prop, "cont", f, tier, owned)]
+                        vec![job(prop, "cont", f, tier, params.clone()), job(prop, "cont", f, tier, owned), job(prop, "cont", f, tier, json!({"many": if tier == "quick" { 40 } else { 96 }}))]
                     })
                     .collect(),
                 level: "model_checking".into(),
